@@ -42,6 +42,7 @@ class C06System(BuilderSystem):
             ["set_length_units", ["in"]], ["set_length_units", ["mm"]],
             ["pause"], ["halt", ["wait-for-bed"], {"S": self.temp}], ["stop", [True]],
             ["set_feed_rate", [self.feedv]],
+            ["auto_home"], ["probe", ["towards"], {"z": -1}],          # afterwards some axis position is unknown
         ]
 
     SHUTDOWNS = (["tool_off"], ["power_off"], ["coolant_off"], ["emergency_halt", [MSG]])
